@@ -70,6 +70,14 @@ Theorem C17_remove_star_simplex_spec : forall thr (c : cplx) (sigma t : simplex)
 Proof. exact remove_star_simplex_spec. Qed.
 Print Assumptions C17_remove_star_simplex_spec.
 
+(* B3'. ... and its blocker set becomes: sigma, and the old blockers that do not contain sigma - by A2 exactly the minimal
+   non-faces of the new complex when the old blockers were those of the old one ("blockers = minimal non-faces" is kept). *)
+Theorem C17_remove_star_simplex_blockers : forall thr (c : cplx) (sigma : simplex),
+  (3 <= length sigma)%nat -> NoDup (blk c) ->
+  forall b, In b (blk (remove_star_simplex thr c sigma)) <-> b = sigma \/ (In b (blk c) /\ ssub sigma b = false).
+Proof. exact remove_star_simplex_blockers. Qed.
+Print Assumptions C17_remove_star_simplex_blockers.
+
 (* B4. link_condition(a,b) holds iff no blocker passes through a and b. *)
 Theorem C17_link_condition_spec : forall c a b, link_condition c a b = true <->
   forall s, In s (blk c) -> ~ (In a s /\ In b s).
